@@ -24,7 +24,7 @@ type synthEntry struct {
 	Time int    `json:"time"`
 	ID   string `json:"id"` // clock id bytes as string (may be empty)
 	Hash int    `json:"hash"`
-	Made int    `json:"made,omitempty"` // how the object came to its present state: 0 struct literal; 1 setters; 2 setters, after other values were set first; 3 other hash set first, final values written to the exported fields; 4 value copy of another entry, fields overwritten
+	Made int    `json:"made,omitempty"` // how the object came to its present state: 0 struct literal; 1 setters; 2 setters, after other values were set first; 3 other hash set first, final values written to the exported fields; 4 value copy of another entry, fields overwritten; 5 / 6 the clock object was compared at an earlier time and then ticked / merged in place
 }
 
 type c19Prog struct {
@@ -106,7 +106,7 @@ func genC19(t *rapid.T) c19Prog {
 	}
 	if rapid.IntRange(0, 2).Draw(t, "made") == 0 {
 		for i := range p.Pool {
-			p.Pool[i].Made = rapid.IntRange(0, 4).Draw(t, "madeHow")
+			p.Pool[i].Made = rapid.IntRange(0, 6).Draw(t, "madeHow")
 		}
 	}
 	p.Perm = rapid.SliceOfN(rapid.IntRange(0, 1<<20), n+3, n+3).Draw(t, "perm")
@@ -148,10 +148,10 @@ func keyOf(e iface.IPFSLogEntry) string {
 func mk(s synthEntry) iface.IPFSLogEntry {
 	other := hashOf((s.Hash + 17) % 64)
 	otherClock := entry.NewLamportClock([]byte("zz"), s.Time/2+7)
-	switch s.Made % 5 {
+	switch s.Made % 7 {
 	case 1, 2:
 		e := &entry.Entry{LogID: "L", Payload: []byte("p"), V: 2}
-		if s.Made%5 == 2 {
+		if s.Made%7 == 2 {
 			e.SetHash(other)
 			e.SetClock(otherClock)
 		}
@@ -164,6 +164,29 @@ func mk(s synthEntry) iface.IPFSLogEntry {
 		e.SetClock(otherClock)
 		e.Hash = hashOf(s.Hash)
 		e.Clock = entry.NewLamportClock([]byte(s.ID), s.Time)
+		return e
+	case 5, 6:
+		// the clock object was already looked at by a comparison when it stood at an earlier time, and was then
+		// advanced in place: ticked (5) or merged with a later clock (6)
+		if s.Time <= 0 {
+			break
+		}
+		// (Merge computes through float64: it is only used where that is exact; larger times are ticked)
+		merge := s.Made%7 == 6 && s.Time < 1<<53
+		clk := entry.NewLamportClock([]byte(s.ID), s.Time-1)
+		if merge {
+			clk = entry.NewLamportClock([]byte(s.ID), 0)
+		}
+		e := &entry.Entry{LogID: "L", Payload: []byte("p"), V: 2, Hash: hashOf(s.Hash), Clock: clk}
+		probe := &entry.Entry{LogID: "L", Payload: []byte("p"), V: 2, Hash: other, Clock: otherClock}
+		_, _ = sorting.SortByEntryHash(e, probe)
+		_, _ = sorting.LastWriteWins(probe, e)
+		_ = clk.Compare(otherClock)
+		if merge {
+			clk.Merge(entry.NewLamportClock([]byte("zz"), s.Time))
+		} else {
+			clk.Tick()
+		}
 		return e
 	case 4:
 		src := &entry.Entry{LogID: "L", Payload: []byte("p"), V: 2}
